@@ -7,6 +7,12 @@
 //!   their arrival at g (a counter bumped right before `wait()`); every party passes every generation (else HANG);
 //!   a party never passes generation g + 1 before it passed g (program order) and the number of parties that passed
 //!   g is n at the end.
+//!   MAYV_PARTIES=p (default n; a multiple of n, with MAYV_GENS=1: with several calls per party the last generation
+//!   could be left with calls of one party only, a deadlock of the scenario): MORE parties than n share the barrier, so the set of
+//!   parties of a generation differs from generation to generation (re-use by anybody).  A party does not know which
+//!   generation it joins, so the oracles count: the k-th return from wait() overall needs n * ceil(k / n) announced
+//!   arrivals (nobody passes before its generation is complete), the number of leaders never exceeds the number of
+//!   complete generations, and at the end every call has returned and there was one leader per n arrivals.
 //! MAYV_KIND=wg: a WaitGroup with MAYV_N worker handles (clones made by main) + main's own; every worker either drops
 //!   its handle after a random delay, or clones once more and drops both at different times, or calls wait();
 //!   main finally waits (or drops, MAYV_MAINWAIT=0).
@@ -88,6 +94,10 @@ fn spawn_actor(ctx: &Ctx, in_co: bool, name: String, f: impl FnOnce() + Send + '
 struct Bar {
     b: may::sync::Barrier,
     n: u64,
+    free: bool,                 // more parties than n: generations are anonymous
+    arrived_total: AtomicU64,
+    passed_total: AtomicU64,
+    leaders_total: AtomicU64,
     arrived: Vec<AtomicU64>,
     passed: Vec<AtomicU64>,
     leaders: Vec<AtomicU64>,
@@ -98,6 +108,27 @@ fn party(sh: Arc<Bar>, who: usize, gens: u64, seed: u64) {
     let is_co = may::coroutine::is_coroutine();
     c.log("actor", who as u64, if is_co { 2 } else { 1 }, None);
     let mut r = Rng(seed | 1);
+    if sh.free {
+        for _ in 0..gens {
+            pause(&c, &mut r);
+            sh.arrived_total.fetch_add(1, SeqCst);
+            c.log("bar.arrive", 255, who as u64, None);
+            let res = sh.b.wait();
+            c.log("bar.leave", 255, res.is_leader() as u64, None);
+            let p = sh.passed_total.fetch_add(1, SeqCst) + 1;
+            let a = sh.arrived_total.load(SeqCst);
+            if p > (a / sh.n) * sh.n {
+                c.fail(format!("party {who}: return number {p} from Barrier::wait when only {a} arrivals were announced (n = {})", sh.n));
+            }
+            if res.is_leader() {
+                let l = sh.leaders_total.fetch_add(1, SeqCst) + 1;
+                if l > a / sh.n {
+                    c.fail(format!("party {who}: leader number {l} with only {a} arrivals announced (n = {})", sh.n));
+                }
+            }
+        }
+        return;
+    }
     for g in 0..gens as usize {
         pause(&c, &mut r);
         if g > 0 && sh.passed[g - 1].load(SeqCst) == 0 {
@@ -240,9 +271,22 @@ fn main() {
             println!("kind=wg handles={t} waits={} vtime={}", sh.waits_done.load(SeqCst), ctx.now());
         } else {
             let mk = |k: u64| (0..k).map(|_| AtomicU64::new(0)).collect::<Vec<_>>();
-            let sh = Arc::new(Bar { b: may::sync::Barrier::new(n as usize), n, arrived: mk(gens), passed: mk(gens), leaders: mk(gens) });
+            let parties = envn("MAYV_PARTIES", n);
+            let free = parties != n;
+            assert!(!free || (parties % n == 0 && gens == 1), "MAYV_PARTIES must be a multiple of MAYV_N and MAYV_GENS = 1");
+            let sh = Arc::new(Bar {
+                b: may::sync::Barrier::new(n as usize),
+                n,
+                free,
+                arrived_total: AtomicU64::new(0),
+                passed_total: AtomicU64::new(0),
+                leaders_total: AtomicU64::new(0),
+                arrived: mk(gens),
+                passed: mk(gens),
+                leaders: mk(gens),
+            });
             ctx.log("bar.new", n, gens, None);
-            for k in 0..n as usize {
+            for k in 0..parties as usize {
                 let (sh2, seed, in_co) = (sh.clone(), ctx.rand(), pick_co(ctx));
                 hs.push(spawn_actor(ctx, in_co, format!("p{k}"), move || party(sh2, k, gens, seed)));
             }
@@ -257,7 +301,13 @@ fn main() {
                 }
             }
             ctx.record(false);
-            for g in 0..gens as usize {
+            if free {
+                let (a, p, l) = (sh.arrived_total.load(SeqCst), sh.passed_total.load(SeqCst), sh.leaders_total.load(SeqCst));
+                if a != parties * gens || p != a || l != a / n {
+                    ctx.fail(format!("{a} arrivals, {p} returns, {l} leaders (n = {n})"));
+                }
+            }
+            for g in 0..(if free { 0 } else { gens as usize }) {
                 let (l, p) = (sh.leaders[g].load(SeqCst), sh.passed[g].load(SeqCst));
                 if l != 1 || p != n {
                     ctx.fail(format!("generation {g}: {l} leader(s), {p} of {n} parties passed"));
